@@ -194,9 +194,44 @@ def rule_e(repo, chk):
     c19.rule_c(repo, Relabel(chk, 'C05.e'))
 
 
+def rule_f(repo, chk):
+    chk.clause('C05.f', 'the project-wide search for other modules is skipped only for PARAMETERS (or when the caller asked for this module '
+                        'only): the assignment `potential_modules = module_contexts` in find_references is reached only through '
+                        '`only_in_module` or a test of api_type == \'param\' (a helper that answers true for anything else - function locals can '
+                        'be module globals through a `global` statement - loses references in other files)')
+    f = repo.find(REFS, 'find_references')
+    skips = [a for a in stmts_in(f, ast.Assign) if norm(a.targets[0]) == 'potential_modules' and norm(a.value) == 'module_contexts']
+    chk.floor('C05.f', len(skips), 1, '(the no-scan branch of find_references)')
+
+    def is_param_test(e):
+        return isinstance(e, ast.Compare) and len(e.ops) == 1 and isinstance(e.ops[0], ast.Eq) and isinstance(e.left, ast.Attribute) \
+            and e.left.attr == 'api_type' and isinstance(e.comparators[0], ast.Constant) and e.comparators[0].value == 'param'
+
+    def accept(e, pol):
+        if not pol:
+            return False
+        if isinstance(e, ast.Name) and e.id == 'only_in_module':
+            return True
+        if isinstance(e, ast.Call) and call_name(e) == 'any' and e.args and isinstance(e.args[0], (ast.GeneratorExp, ast.ListComp)):
+            elt = e.args[0].elt
+            if is_param_test(elt):
+                return True
+            # a helper predicate: every truthy return of it must be under api_type == 'param'
+            if isinstance(elt, ast.Call):
+                r = repo.resolve(elt.func)
+                d = repo.def_by_dotted(r) if r else None
+                if d is not None:
+                    rets = [x for x in stmts_in(d, ast.Return) if not (isinstance(x.value, ast.Constant) and not x.value.value)]
+                    return bool(rets) and all(is_param_test(x.value) or gate(d, x, lambda e2, p2: p2 and is_param_test(e2)) is None for x in rets)
+        return False
+    for a in skips:
+        w = gate(f, a, accept)
+        chk.ob('C05.f', w is None, a, 'other modules are left out of the reference search only for parameters / on request', w or '')
+
+
 def describe(chk):
     chk.undecided('behaviour preservation of the renamed program, the partition property of get_references, the byte round trip (all run-time); '
                   'which modules are candidates (get_module_contexts_containing_name)')
 
 
-RULES = [('C05.a', rule_a), ('C05.b', rule_b), ('C05.c', rule_c), ('C05.d', rule_d), ('C05.e', rule_e)]
+RULES = [('C05.a', rule_a), ('C05.b', rule_b), ('C05.c', rule_c), ('C05.d', rule_d), ('C05.e', rule_e), ('C05.f', rule_f)]
